@@ -321,9 +321,13 @@ class Run:
             s['items'] = [self.item_of(x) for x in res.items]
         else:
             s['users'] = [self.ids[u] for u in res.users]
-            s['since'] = [int(u.usage_since) for u in res.users]
+            s['since'] = [self.as_int(getattr(u, 'usage_since', None)) for u in res.users]
             s['user_keys'] = [self.keyof(self.meta[self.ids[u]]) for u in res.users]
         return s
+
+    @staticmethod
+    def as_int(x):
+        return int(x) if isinstance(x, (int, float)) and x == int(x) else -1
 
     @staticmethod
     def keyof(m):
@@ -350,6 +354,11 @@ class Run:
             self.log.append((['time', t], [], s))
         self.cur = []
         return self.snap()
+
+    def abort(self, op, exc):
+        self.cur = None
+        self.reserved = None
+        self.oracle.bad('operation %s raised %s: %s' % (op, type(exc).__name__, str(exc)[:200]))
 
     def end(self, op, before, valid=True):
         grants, self.cur = self.cur, None
@@ -405,6 +414,9 @@ class Run:
                     ev = self.R.PriorityRequest(res, a, preempt=False)
         except ValueError:
             ev = None
+        except Exception as e:
+            self.abort(op, e)
+            raise
         if ev is not None:
             self.rid_of(ev)
             ev.cancel = lambda e=ev: self.h_cancel(e)
@@ -425,7 +437,11 @@ class Run:
         tgt = self.ids[request]
         self.meta[rid] = dict(target=tgt)
         self.oracle.issue('G', rid, self.meta[rid])
-        ev = self.o_release(request)
+        try:
+            ev = self.o_release(request)
+        except Exception as e:
+            self.abort(['get', rid, tgt], e)
+            raise
         self.rid_of(ev)
         self.reserved = None
         self.end(['get', rid, tgt], before)
@@ -438,7 +454,11 @@ class Run:
         before = self.begin()
         if not ev.triggered:
             self.dead.add(rid)
-        type(ev).cancel(ev)
+        try:
+            type(ev).cancel(ev)
+        except Exception as e:
+            self.abort(['cancel', rid], e)
+            raise
         self.end(['cancel', rid], before)
 
     # ---- hooks
@@ -446,14 +466,22 @@ class Run:
         if event is None:
             return self.o_trig_put(None)
         before = self.begin()
-        self.o_trig_put(event)
+        try:
+            self.o_trig_put(event)
+        except Exception as e:
+            self.abort(['proc', self.ids[event], 'G'], e)
+            raise
         self.end(['proc', self.ids[event], 'G'], before)
 
     def h_trig_get(self, event):
         if event is None:
             return self.o_trig_get(None)
         before = self.begin()
-        self.o_trig_get(event)
+        try:
+            self.o_trig_get(event)
+        except Exception as e:
+            self.abort(['proc', self.ids[event], 'P'], e)
+            raise
         self.end(['proc', self.ids[event], 'P'], before)
 
     def h_do_put(self, event):
@@ -489,7 +517,7 @@ class Run:
                                    by=self.owner_of(cause.by) if isp else None,
                                    since=cause.usage_since if isp else None,
                                    same_resource=isp and cause.resource is self.res)
-                    enc_note = [vid, int(cause.usage_since) if isp else -1, self.owner_of(proc)]
+                    enc_note = [vid, self.as_int(cause.usage_since) if isp else -1, self.owner_of(proc)]
                 else:
                     enc_note = [vid, -1, -1]
         m = self.meta[rid]
@@ -563,6 +591,12 @@ class Run:
                     yield from self.wait(r, sub[4], cancel=False)
                     if r.triggered:
                         yield env.timeout(hold)
+                # leaving the block releases a granted request / dequeues a waiting one
+                rid = self.ids[r]
+                if any(u is r for u in getattr(self.res, 'users', ())):
+                    self.oracle.bad('request %d still holds a slot after its with-block' % rid)
+                if any(q is r for q in self.res.put_queue) or any(q is r for q in self.res.get_queue):
+                    self.oracle.bad('request %d is still queued after its with-block' % rid)
 
     def proc(self, idx, steps):
         self.proc_idx[self.env.active_process] = idx
